@@ -143,13 +143,14 @@ def depth_at(src, mask, lo, hi):
     return d
 
 
-def find_container(src, mask, header, lo=0, hi=None):
+def find_container(src, mask, header, lo=0, hi=None, nth=1):
     """Find an `impl`/`mod`/`trait` block whose header (text up to the opening brace,
     whitespace-normalised) equals `header`.  Returns (body_lo, body_hi) = indices just
     inside the braces."""
     hi = len(src) if hi is None else hi
     want = _norm_ws(header)
     kw = want.split(' ')[0].split('<')[0]
+    seen = 0
     for mm in re.finditer(r'\b' + re.escape(kw) + r'\b', src[lo:hi]):
         i = lo + mm.start()
         if not mask[i]:
@@ -163,6 +164,9 @@ def find_container(src, mask, header, lo=0, hi=None):
         # strip comments out of header text
         hdr = ''.join(ch if mask[k] else ' ' for k, ch in enumerate(src[i:j], start=i))
         if _norm_ws(hdr) == want:
+            seen += 1
+            if seen != nth:
+                continue
             close = match_brace(src, mask, j)
             return j + 1, close
     raise ExtractError('container not found: %s' % header)
@@ -229,7 +233,11 @@ def extract(repo, relfile, container, kind, name, nth=1):
     lo, hi = 0, len(src)
     if container:
         for hdr in container.split(' :: '):
-            lo, hi = find_container(src, mask, hdr, lo, hi)
+            cn = 1
+            mm = re.match(r'^(.*\S)\s+#(\d+)$', hdr)
+            if mm:
+                hdr, cn = mm.group(1), int(mm.group(2))
+            lo, hi = find_container(src, mask, hdr, lo, hi, cn)
     s, e = find_item(src, mask, kind, name, lo, hi, nth)
     text = src[s:e]
     line = src.count('\n', 0, s) + 1
